@@ -473,4 +473,23 @@ theorem resolveKeyWith_eq_spec (probe : FS → Path → Bool) (cfg : Config) (co
       simp only [isFile, hp, Bool.not_false, if_true]
       simpa using h
 
+/-- the accumulator of the loop only ever grows at the end -/
+theorem resolveLoop_acc (step : Key → Span → Step) (keys : List (Key × Span)) (acc : List (Key × Bytes)) :
+    resolveLoop step keys acc =
+      match resolveLoop step keys [] with
+      | .ok l => .ok (acc ++ l)
+      | .error e => .error e := by
+  induction keys generalizing acc with
+  | nil => simp [resolveLoop]
+  | cons k rest ih =>
+    obtain ⟨key, span⟩ := k
+    simp only [resolveLoop]
+    cases step key span with
+    | fail e => simp
+    | skipped => exact ih acc
+    | loaded b =>
+      simp only [List.nil_append]
+      rw [ih (acc ++ [(key, b)]), ih [(key, b)]]
+      cases resolveLoop step rest [] <;> simp
+
 end Wac.Lemmas.FsLookup
